@@ -451,6 +451,16 @@ def run(prop, res, tier, seed):
         run_c06(res, tier, seed)
     elif prop == "C08":
         run_c08(res, tier, seed)
+        # end to end: external stays external while the project's manifest changes under the running server
+        import shutil, lsp, p_project
+        lsp.build_glas()
+        base = os.path.join(common.ROOT, "work", f"c08-{os.getpid()}")
+        shutil.rmtree(base, ignore_errors=True)
+        try:
+            for k in range(2 if tier == "quick" else 12):
+                p_project.run_e2e_manifest(res, f"{base}/manifest{k}", random.Random(seed * 1000 + 700 + k), "C08")
+        finally:
+            shutil.rmtree(base, ignore_errors=True)
     elif prop == "C07":
         import p_rename
         p_rename.run_c07(res, tier, seed)
